@@ -33,17 +33,17 @@ CHECKS = {
             "3.C11", "brute-force oracle; 6 and 171 classes re-derived by the oracle itself"),
     "C12": (EX, "E4", "bounded-exhaustive enumeration of DirectedHypergraph contents x every bound 2..6 x every degree filter; signature and the three reciprocities compared with their definitions in exact rational arithmetic; exact <= strong <= weak checked per size",
             "3.C12", "definitions as stated in the property"),
-    "C18": (MC, "E3+E4", "stateless exhaustive exploration of every random answer: every sampled walk of length <=3 (each np.random.choice answer with p>0 is a branch) and the full coin tree of simplicial_contagion (every comparison of a uniform draw with a rate is a binary choice point) for every initial condition, horizon and rate triple; the SET of trajectories per configuration must equal that of a synchronous reference simulation; transition matrix / stationary state / densities on every connected hypergraph on 0..N-1",
+    "C18": (MC, "E3+E4", "stateless exhaustive exploration of every random answer: (also after every connected in-place rewiring of the same object) every sampled walk of length <=3 (each np.random.choice answer with p>0 is a branch) and the full coin tree of simplicial_contagion (every comparison of a uniform draw with a rate is a binary choice point) for every initial condition, horizon and rate triple; the SET of trajectories per configuration must equal that of a synchronous reference simulation; transition matrix / stationary state / densities on every connected hypergraph on 0..N-1",
             "3.C18", "np.random reached only through the module-level name np (seam); uniform draws only compared (CoinFloat raises otherwise)"),
     "C19": (EX, "E4", "bounded-exhaustive enumeration: contents of the four container types x metadata alphabets x every criteria dictionary x mode x keep_edges against the reference model filtered by definition; SVH tables of every small weighted hypergraph recomputed in exact rational arithmetic (p-values, step-up threshold, validated set)",
             "3.C19", "scipy binom.sf agrees with the exact tail to 1e-9 relative; mp=True on a deterministic subset, run in the parent process"),
     "C20": (EX, "E4+E3", "bounded-exhaustive enumeration: s-/node/sub-hypergraph centralities against networkx/scipy on independently built projections (int and string labels, temporal averages); CEC/HEC on every connected uniform hypergraph x every start vector of a finite menu (scripted through the np.random seam), eigen-equations checked with tolerances derived from the stopping rules, relabelling checked with the permuted start vector",
             "3.C20", "start vectors from a finite menu (alphabet limit); tolerances derived, not tuned"),
-    "C13": (MC, "E3", "stateless model checking of the real Markov chains: FULL tree of every random answer (ordered proposal pairs, redraws within a call budget, every reshuffle coin) of configuration_model for n_steps<=2(3), both labels, detailed T/F, size/order restriction; directed model deviation-bounded: every placement of <=D effective swaps (each with every node choice) among all 20m proposals; degree / size-multiset oracle on every execution's output",
+    "C13": (MC, "E3", "stateless model checking of the real Markov chains: FULL tree of every random answer (ordered proposal pairs, redraws within a call budget and, deviation-bounded, behind forced runs of 30-3000 rejected redraws, every reshuffle coin) of configuration_model for n_steps<=2(3), both labels, detailed T/F, size/order restriction; directed model deviation-bounded: every placement of <=D effective swaps (each with every node choice) among all 20m proposals; degree / size-multiset oracle on every execution's output",
             "3.C13", "np.random / random reached through module-level names (seams); redraw loop cut by a per-label call budget (rejected redraws leave the chain state unchanged)"),
     "C14": (EX, "E3", "exhaustive enumeration of every answer of every draw of each generator under scripted random sources (k-subsets, coins, a menu for exponential draws), structural contract checked on every execution; seed oracle: random.seed(seed) precedes the first draw, plus the real generator run twice per seed",
             "3.C14", "redraw loops cut by call budgets; exponential draws from a 3-vector menu (alphabet limit)"),
-    "C15": (EX, "E4+E3", "bounded-exhaustive enumeration: closed forms (Poisson parameters, kappa, expected degrees / sizes, C) against brute force over ALL hyperedges for u on the full grid {0,1/2,1}^(NxK) and every symmetric w over {0,1,2}; fit on small hypergraphs x every configuration x n_iter 1..5 with the initial draw scripted from a menu: supplied parameters bit-identical, finiteness/sign/symmetry, exact Poisson log-likelihood non-decreasing (w_prior>0: known finding, attributed only when the penalised objective still ascends)",
+    "C15": (EX, "E4+E3", "bounded-exhaustive enumeration: every ordered sequence of <=3 model sizes in a freshly loaded model module (module-level state) against closed forms; closed forms (Poisson parameters, kappa, expected degrees / sizes, C) against brute force over ALL hyperedges for u on the full grid {0,1/2,1}^(NxK) and every symmetric w over {0,1,2}; fit on small hypergraphs x every configuration x n_iter 1..5 with the initial draw scripted from a menu: supplied parameters bit-identical, finiteness/sign/symmetry, exact Poisson log-likelihood non-decreasing (w_prior>0: known finding, attributed only when the penalised objective still ascends)",
             "3.C15", "polynomial-degree argument extends the grid to all reals only if the implementation is a polynomial in u,w (it uses @,*,sum); EM start values from a finite menu"),
     "C16": (MC, "E3", "stateless model checking of the sampler's chain through its public generator: every ordered pair draw, every reshuffle subset, both outcomes of the MH coin, quantile vectors from a menu; initial hypergraphs and every (degree, size) sequence pair for N=4 with every greedy tie-break; both numpy Generators are handed out by a recording factory so that any consumed draw from an unseeded generator is a violation, confirmed with real samplers",
             "3.C16", "np.random.default_rng reached only via the module-level name np; quantile/Poisson/normal draws from finite menus"),
